@@ -2,7 +2,6 @@ package s3db
 
 // C16 — every committed version is complete and well-formed on its own.
 
-
 // vUFLayer replaces the layer hash by an uninterpreted function of the key
 // (values 0..maxLayer): the tree shape is then decided by the symbolic order
 // and the symbolic layers of the keys, so every shape up to that height
@@ -98,10 +97,18 @@ func VerifH_C16_codec() {
 		if symChoice("prev", 2) == 1 {
 			cv.PreviousRoot = "root-x"
 		}
-		switch symChoice("rowkind", 3) {
+		switch symChoice("rowkind", 4) {
 		case 0: // kv tombstone / no row
 		case 1: // deleted row
 			cv.Value = &v1protoRow{Deleted: true, DeleteUpdateOffset: durNew(symInt64("doff" + is))}
+		case 3: // deleted row that still carries what its columns held (a later merge may need it)
+			cv.Value = &v1protoRow{
+				Deleted:            true,
+				DeleteUpdateOffset: durNew(symInt64("doff" + is)),
+				ColumnValues: map[string]*v1protoColumnValue{
+					"b": {UpdateOffset: durNew(symInt64("uoff" + is)), Value: toSQLiteValue(symInt64("val" + is))},
+				},
+			}
 		case 2: // live row with one column
 			cv.Value = &v1protoRow{
 				DeleteUpdateOffset: durNew(symInt64("doff" + is)),
